@@ -3,6 +3,7 @@ package progen
 import (
 	"fmt"
 	"sort"
+	"strings"
 )
 
 // Signature abstracts a (reduced) program to the sorted set of control-flow features it still
@@ -10,15 +11,35 @@ import (
 // guarded by an `if` or not, `$a += 1` or `$a = $a + 1`, the victim a caller variable or a default
 // value) share a signature, while a defect in another construct yields another one.
 //
-//	for>for>continue2   every break/continue/return with the loops/switches of its function that
-//	                    enclose it, outermost first (`if` is transparent and not listed)
-//	for foreach while dowhile switch match   constructs present
+//	..>for>continue2    every break/continue/return with the innermost loop/switch of its function
+//	                    that encloses it; `..>` when that construct is itself nested in another one
+//	                    (`if` is transparent and not listed). The innermost construct is the one
+//	                    that has to act on the jump first; which constructs lie further out is
+//	                    deliberately not part of the signature.
+//	for foreach while dowhile switch   constructs present — only listed for programs without any
+//	                    break/continue/return (otherwise the jump tokens carry the information)
 //	fallthrough         a switch has a case that runs into the next one
-//	elseif else         an if uses them
+//	elseif else match   an if uses them / a match expression is present
 //	call recursion      user functions are called / call themselves
 //	static defaults     static locals / parameter defaults are used
 func Signature(p *Program) []string {
-	set := map[string]bool{}
+	set, constructs, jumps := features(p)
+	if !jumps {
+		for k := range constructs {
+			set[k] = true
+		}
+	}
+	out := make([]string, 0, len(set))
+	for k := range set {
+		out = append(out, k)
+	}
+	sort.Strings(out)
+	return out
+}
+
+func features(p *Program) (set, constructs map[string]bool, jumps bool) {
+	set = map[string]bool{}
+	constructs = map[string]bool{}
 	var ex func(e *Expr, fn string)
 	ex = func(e *Expr, fn string) {
 		if e == nil {
@@ -56,9 +77,11 @@ func Signature(p *Program) []string {
 			case SStatic:
 				set["static"] = true
 			case SBreak, SContinue:
-				set[fmt.Sprintf("%s%s%d", path, s.K, s.N)] = true
+				set[fmt.Sprintf("%s%s%d", shortPath(path), s.K, s.N)] = true
+				jumps = true
 			case SReturn:
-				set[path+"return"] = true
+				set[shortPath(path)+"return"] = true
+				jumps = true
 			case SIf:
 				st(s.Then, path, fn)
 				for _, e := range s.Elifs {
@@ -71,10 +94,10 @@ func Signature(p *Program) []string {
 					st(s.Else, path, fn)
 				}
 			case SLoop:
-				set[s.Loop] = true
+				constructs[s.Loop] = true
 				st(s.Body, path+s.Loop+">", fn)
 			case SSwitch:
-				set["switch"] = true
+				constructs["switch"] = true
 				for i, c := range s.Cases {
 					ex(c.Val, fn)
 					if i < len(s.Cases)-1 && !endsInJump(c.Body) {
@@ -94,12 +117,19 @@ func Signature(p *Program) []string {
 		st(f.Body, "", f.Name)
 	}
 	st(p.Main, "", "")
-	out := make([]string, 0, len(set))
-	for k := range set {
-		out = append(out, k)
+	return
+}
+
+// shortPath keeps the innermost construct of "a>b>c>" and marks deeper nesting with "..>".
+func shortPath(path string) string {
+	parts := strings.Split(strings.TrimSuffix(path, ">"), ">")
+	if path == "" {
+		return ""
 	}
-	sort.Strings(out)
-	return out
+	if len(parts) == 1 {
+		return parts[0] + ">"
+	}
+	return "..>" + parts[len(parts)-1] + ">"
 }
 
 func endsInJump(ss []*Stmt) bool {
@@ -111,4 +141,36 @@ func endsInJump(ss []*Stmt) bool {
 		return true
 	}
 	return false
+}
+
+// flagTokens are the signature tokens that name a phenomenon rather than a position.
+var flagTokens = map[string]bool{"fallthrough": true, "static": true, "recursion": true, "defaults": true,
+	"elseif": true, "else": true, "match": true, "call": true, "switch": true}
+
+// Flags returns the phenomenon tokens of Signature(p). Reducers should only accept candidates whose
+// flags are a subset of the original's: deleting the `break` that ends a case, for instance,
+// turns any failing program containing a switch into a fall-through program, and the reduction
+// would slide from the defect under study into another one.
+func Flags(p *Program) map[string]bool {
+	out := map[string]bool{}
+	set, constructs, _ := features(p)
+	for t := range set {
+		if flagTokens[t] {
+			out[t] = true
+		}
+	}
+	if constructs["switch"] {
+		out["switch"] = true
+	}
+	return out
+}
+
+// FlagsWithin reports whether Flags(p) is a subset of allowed.
+func FlagsWithin(p *Program, allowed map[string]bool) bool {
+	for t := range Flags(p) {
+		if !allowed[t] {
+			return false
+		}
+	}
+	return true
 }
